@@ -12,7 +12,11 @@ RULE = ("real ssnet.runonce on both tunnel ends over fake sockets, every micro-s
         "round-trip requests delivered to descriptor 0 in ONE segment (just over one read, many small ones, more than two reads' "
         "worth, one message larger than a read) give k answers without further input, for --latency-buffer-size 1..40000 incl. "
         "sizes that are no multiple of a block size; 'not answered' is decided when the server has taken every byte off the "
-        "descriptor and sleeps in select()")
+        "descriptor and sleeps in select(); and the budget that server.main really applies is measured: one bulk download "
+        "(300000 bytes from a loopback destination) through the real server.main run with --latency-buffer-size L (1..40000 "
+        "incl. 1, 256, 2047-2049, 32767, 32768, 40000), the server's round-trip request never answered — until it sleeps in "
+        "select() it must have queued at most L + 4*2048 bytes of stream payload on the tunnel (c09_bound: one 2048-byte frame "
+        "per callback, at most 4 callbacks per connection and iteration), must have asked (PING 'rttest') and queued none after")
 TRUSTED_BASE = sc.STREAM_TB
 ASSUMPTIONS = sc.STREAM_ASSUMPTIONS
 PROFILES = ["latency","latency","bulk","many","noise","trickle"]
